@@ -7,7 +7,7 @@ class C02(IdProp):
     budgets = {"quick": 900, "thorough": 9000}
     with_oracle = False
     rule = ("random ADMGs with 2..6 nodes (7 thorough) with forced isolated nodes, several districts, treatments that are not ancestors of outcomes x random "
-            "disjoint X, Y; thorough adds every labelled ADMG on <= 3 nodes with every query. Each call: outcome class (estimand / None / exception), "
+            "disjoint X, Y; one query per shape of run of the recursion (harness/corpus/id_traces.json, fresh node names); thorough adds every labelled ADMG on <= 3 nodes with every query. Each call: outcome class (estimand / None / exception), "
             "identifiability by the independent Tian-Pearl criterion, deep snapshot of graph and query before/after. Non-trivial: reached line 4-7 or refused")
     explanation = ("verdict and exception class compared with the Gallina model; totality/hedge clauses in Properties/C02.v; mutation monitored on every call")
     assumptions = ["'refuses exactly when a hedge exists' is checked against the Tian-Pearl criterion (complete by Huang-Valtorta / Shpitser-Pearl), not proved",
